@@ -1003,7 +1003,14 @@ class API:
             gapic.schema.api.MethodSettingsError: if the method settings do not
                 meet the requirements of https://google.aip.dev/client-libraries/4235.
         """
-        self.enforce_valid_method_settings(
+        # The service YAML names methods of the whole API: validate against the
+        # whole API, not against the sub-package this view shows.
+        whole_api = (
+            dataclasses.replace(self, subpackage_view=())
+            if self.subpackage_view
+            else self
+        )
+        whole_api.enforce_valid_method_settings(
             self.service_yaml_config.publishing.method_settings
         )
 
